@@ -1,0 +1,10 @@
+//go:build verif
+
+package shard
+
+// VerifRunGC synchronously runs one garbage-collection pass (what the GC
+// ticker runs periodically).
+func (s *Shard) VerifRunGC() { s.removeGarbage() }
+
+// VerifHandleEpoch synchronously runs the new-epoch event handler.
+func (s *Shard) VerifHandleEpoch(e uint64) { s.setEpochEventHandler(EventNewEpoch(e)) }
